@@ -15,6 +15,7 @@ import (
 	"reflect"
 	"sort"
 	"strconv"
+	"strings"
 	"sync/atomic"
 	"syscall"
 	"time"
@@ -228,8 +229,25 @@ var cmpCounter atomic.Int64
 
 func cmpCalls() int { return int(cmpCounter.Load()) }
 
+// baseCmp strips the "x" suffix: "natx" orders like "nat" but returns magnitudes, not just -1/0/1
+func baseCmp(mode string) string { return strings.TrimSuffix(mode, "x") }
+func isMag(mode string) bool     { return strings.HasSuffix(mode, "x") }
+
+func sign3or(mag bool, ra, rb int) int {
+	if mag { // any strict weak order may return any negative / positive number
+		return (ra - rb) * 7
+	}
+	switch {
+	case ra < rb:
+		return -1
+	case ra > rb:
+		return 1
+	}
+	return 0
+}
+
 func rankOf(mode string, x int) int {
-	switch mode {
+	switch baseCmp(mode) {
 	case "rev":
 		return -x
 	case "half":
@@ -242,16 +260,10 @@ func rankOf(mode string, x int) int {
 }
 
 func cmpInt(mode string) func(a, b int) int {
+	mag := isMag(mode)
 	return func(a, b int) int {
 		cmpCounter.Add(1)
-		ra, rb := rankOf(mode, a), rankOf(mode, b)
-		switch {
-		case ra < rb:
-			return -1
-		case ra > rb:
-			return 1
-		}
-		return 0
+		return sign3or(mag, rankOf(mode, a), rankOf(mode, b))
 	}
 }
 
@@ -282,7 +294,7 @@ type PE struct {
 }
 
 func rankPE(mode string, x PE) int {
-	switch mode {
+	switch baseCmp(mode) {
 	case "prio":
 		return x.P
 	case "maxprio":
@@ -294,16 +306,10 @@ func rankPE(mode string, x PE) int {
 }
 
 func cmpPE(mode string) func(a, b PE) int {
+	mag := isMag(mode)
 	return func(a, b PE) int {
 		cmpCounter.Add(1)
-		ra, rb := rankPE(mode, a), rankPE(mode, b)
-		switch {
-		case ra < rb:
-			return -1
-		case ra > rb:
-			return 1
-		}
-		return 0
+		return sign3or(mag, rankPE(mode, a), rankPE(mode, b))
 	}
 }
 
